@@ -184,6 +184,22 @@ def recon2b (n0 n1 : Nat) (t0 t1 : List Nat) (tp : List (List Rat)) :
     (subs t1).foldl (fun u s1 => writeBlock2 u s0.uStart s1.uStart (block2b tp s0 s1)) u)
     (List.replicate n0 (List.replicate n1 none))
 
+/-! ### the loops of `__getitem__` with an arbitrary block per subarea
+
+The same double loop serves every interpolation method (`get_Subarray()` picks the class
+whose `__getitem__` produces the block). -/
+
+/-- `SubsampledArray.__getitem__`'s loop with an arbitrary per-subarea block. -/
+def assembleG {α} (blk : Sub → List α) (u : List (Option α)) (ss : List Sub) : List (Option α) :=
+  ss.foldl (fun u s => writeBlock u s.uStart (blk s)) u
+
+/-- The double loop of `SubsampledArray.__getitem__` over the `itertools.product` of
+the subareas of two subsampled dimensions, with an arbitrary block per subarea pair. -/
+def assemble2G {α} (blk2 : Sub → Sub → List (List α)) (u : List (List (Option α)))
+    (ss0 ss1 : List Sub) : List (List (Option α)) :=
+  ss0.foldl (fun u s0 =>
+    ss1.foldl (fun u s1 => writeBlock2 u s0.uStart s1.uStart (blk2 s0 s1)) u) u
+
 /-! ### `_first_or_last_element` -/
 
 /-- The shortcut of `SubsampledArray.__getitem__` for the index
